@@ -8,7 +8,7 @@ level    : level claimed when every obligation is discharged; drops to 'other' o
 PROPS = {
     'C01': dict(families=[], bounded='pvf.bounded.c01', level='other'),
     'C02': dict(families=['strings'], bounded='pvf.bounded.c02', level='other'),
-    'C03': dict(families=[], bounded='pvf.bounded.c03', level='other'),
+    'C03': dict(families=['context'], bounded='pvf.bounded.c03', level='other'),
     'C04': dict(families=['layout', 'normalize', 'render'], bounded='pvf.bounded.c04', level='proof'),
     'C05': dict(families=['layout', 'normalize'], bounded='pvf.bounded.c05', level='proof'),
     'C06': dict(families=['layout', 'normalize'], bounded='pvf.bounded.c06', level='other'),
@@ -23,7 +23,7 @@ PROPS = {
     'C15': dict(families=['registry'], bounded='pvf.bounded.c15', level='proof'),
     'C16': dict(families=['render'], bounded='pvf.bounded.c16', level='proof'),
     'C17': dict(families=[], bounded='pvf.bounded.c17', level='other'),
-    'C18': dict(families=['config'], bounded='pvf.bounded.c18', level='proof'),
+    'C18': dict(families=['config', 'context'], bounded='pvf.bounded.c18', level='proof'),
     'C19': dict(families=[], bounded='pvf.bounded.c19', level='other'),
 }
 
